@@ -106,3 +106,18 @@ chk("C13",
     "(client_semantic_partial).",
     "Lean 4 proof over the extracted program (all crash prefixes x all consistent states) + exhaustive crash-point enumeration on the real code",
     "6/C13")
+chk("C12",
+    "Unbounded theorems (Props/C12.lean) over a transition system of the connection manager in which the scheduler (event loop, clients, cleanup "
+    "delay) may pick ANY enabled step - opening, lock acquisition, wake-up, sending, request processing, client close, end of the serve loop, "
+    "cleanup start and end - for any number of connections on one service id, using the handlers, constructor and manager step order EXTRACTED from "
+    "the source on this run: in every reachable state at most one connection is being served and a request of connection j is processed only when "
+    "every earlier-opened connection has been closed and cleaned up (arrival-order mutual exclusion); every step leaves the state the disk denotes "
+    "monotone and never replaces or loses an accepted configuration or index; a search result always comes from the index held in the ready state. "
+    "Proved with a six-clause invariant preserved by all nine kinds of step. Tie: translator + executing random interleavings of 2-3 raw websocket "
+    "connections against the real server, the cleanup delay as a schedulable event and the model's predicted manager state guiding the waits, "
+    "comparing every client's messages, the probe and the final disk; the three clauses are also evaluated directly on the real traces.",
+    "Trusted: Lean kernel + 3 standard axioms; asyncio (atomicity between awaits, Condition wake-up semantics as abstracted by the `wake` step), the "
+    "websockets library (per-connection frame order; fire-and-forget replies may be lost when the same connection is then killed: compared as a "
+    "prefix); translator and interpreter as for C10. Correspondence schedules are limited to 3 connections; the theorems are not.",
+    "Lean 4 proof (invariant over all schedules of a transition system built from the extracted program) + schedule-driven differential correspondence",
+    "6/C12")
